@@ -124,6 +124,7 @@ def opFireExpiry (s : State) : State :=
 /-- One scripted answer of an `Update` callback. -/
 inductive UpdStep where
   | set (b : String) | del | cancel | err | retry | exp (e : Nat) (b : Option String)
+  | delif (b : String)     -- a callback that looks at what it is shown: delete if the body is `b`, else cancel
   deriving Repr, Inhabited
 
 def showOpt (v : Option String) : String := match v with | none => "~" | some s => "=" ++ s
@@ -149,6 +150,7 @@ def opUpdate (fuel : Nat) (s : State) (c k : String) (exp : Nat) (steps : List U
     | .cancel => (s, { calls := calls, seen := seen })
     | .set b => write (some b) exp
     | .del => write none exp
+    | .delif b => if raw = some b then write none exp else (s, { calls := calls, seen := seen })
     | .exp e b => write (match b with | some x => some x | none => raw) e
 
 inductive WuStep where
